@@ -23,9 +23,10 @@ theorem nextBar_wiring (s : ChandelierExit F) (b : Bar F)
 /-- panic propagation: the ATR never panics, so `nextBar` panics iff a window does -/
 theorem nextBar_none_iff (s : ChandelierExit F) (b : Bar F) :
     s.nextBar b = none ↔ s.min.nextBar b = none ∨ s.max.nextBar b = none := by
+  -- independent of the order in which the three components are called
+  have h1 := AverageTrueRange.nextBar_eq s.atr b
   unfold nextBar
-  rw [AverageTrueRange.nextBar_eq]
-  cases h2 : s.min.nextBar b <;> cases h3 : s.max.nextBar b <;> simp [h2, h3]
+  cases h2 : s.min.nextBar b <;> cases h3 : s.max.nextBar b <;> simp [h1, h2, h3]
 
 theorem nextBar_total (s : ChandelierExit F) (b : Bar F) (h : WF s) :
     ∃ r, s.nextBar b = some r ∧ WF r.1 ∧ r.1.period_fn = s.period_fn ∧
